@@ -3,7 +3,9 @@ package rules
 
 import (
 	"fmt"
+	"go/token"
 	"go/types"
+	"math/big"
 	"sort"
 	"strings"
 
@@ -1538,4 +1540,117 @@ func (c *Ctx) ExactlyOnce(fnSpec, calleeSet, desc string) {
 		names = append(names, f.CalleeName(s))
 	}
 	c.add("O", fnSpec, role, desc, report.OK, strings.Join(names, ", "), c.posOf(sites[0]))
+}
+
+// NoWrap: the fixed-width unsigned integer expression passed (possibly through a widening conversion) as argument
+// idx of callee in fn cannot wrap around for any value of the fields/parameters it is computed from: interval
+// evaluation over [0, 2^w-1] leaves of +, -, *, /, <<, >> with w-bit results; a result interval leaving the type's
+// range is reported.
+func (c *Ctx) NoWrap(fnSpec, callee string, idx int, desc string) {
+	role := fmt.Sprintf("nowrap/%s/arg%d", callee, idx)
+	f := c.Fn(fnSpec)
+	if f == nil {
+		return
+	}
+	calls := c.sites(f, c.X(callee))
+	if len(calls) == 0 {
+		c.add("A", fnSpec, role, desc, report.Violated, "no call to "+callee, c.fnPos(f))
+		return
+	}
+	type iv struct{ lo, hi *big.Int }
+	width := func(t types.Type) (int, bool) {
+		b, ok := t.Underlying().(*types.Basic)
+		if !ok {
+			return 0, false
+		}
+		switch b.Kind() {
+		case types.Uint8:
+			return 8, true
+		case types.Uint16:
+			return 16, true
+		case types.Uint32:
+			return 32, true
+		case types.Uint64, types.Uint, types.Uintptr:
+			return 64, true
+		}
+		return 0, false
+	}
+	var bad string
+	var eval func(v ssa.Value, depth int) *iv
+	eval = func(v ssa.Value, depth int) *iv {
+		w, unsigned := width(v.Type())
+		full := func() *iv {
+			if !unsigned {
+				return nil
+			}
+			return &iv{big.NewInt(0), new(big.Int).Sub(new(big.Int).Lsh(big.NewInt(1), uint(w)), big.NewInt(1))}
+		}
+		if depth > 12 {
+			return full()
+		}
+		switch x := v.(type) {
+		case *ssa.Const:
+			if x.Value != nil {
+				if n, ok := new(big.Int).SetString(x.Value.ExactString(), 10); ok {
+					return &iv{n, n}
+				}
+			}
+			return full()
+		case *ssa.Convert:
+			return eval(x.X, depth+1)
+		case *ssa.ChangeType:
+			return eval(x.X, depth+1)
+		case *ssa.BinOp:
+			a, b := eval(x.X, depth+1), eval(x.Y, depth+1)
+			if a == nil || b == nil || !unsigned {
+				return full()
+			}
+			var lo, hi *big.Int
+			switch x.Op {
+			case token.ADD:
+				lo, hi = new(big.Int).Add(a.lo, b.lo), new(big.Int).Add(a.hi, b.hi)
+			case token.SUB:
+				lo, hi = new(big.Int).Sub(a.lo, b.hi), new(big.Int).Sub(a.hi, b.lo)
+			case token.MUL:
+				lo, hi = new(big.Int).Mul(a.lo, b.lo), new(big.Int).Mul(a.hi, b.hi)
+			case token.QUO:
+				if b.lo.Sign() == 0 {
+					lo, hi = big.NewInt(0), a.hi
+				} else {
+					lo, hi = new(big.Int).Quo(a.lo, b.hi), new(big.Int).Quo(a.hi, b.lo)
+				}
+			case token.SHR:
+				lo, hi = big.NewInt(0), a.hi
+			default:
+				return full()
+			}
+			max := new(big.Int).Sub(new(big.Int).Lsh(big.NewInt(1), uint(w)), big.NewInt(1))
+			if lo.Sign() < 0 || hi.Cmp(max) > 0 {
+				if bad == "" {
+					bad = fmt.Sprintf("%s of %d-bit operands ranges over [%s, %s] and can wrap", x.Op, w, lo, hi)
+				}
+				return full()
+			}
+			return &iv{lo, hi}
+		}
+		return full()
+	}
+	for _, call := range calls {
+		var args []ssa.Value
+		if cc := call.Common(); cc.IsInvoke() {
+			args = append([]ssa.Value{cc.Value}, cc.Args...)
+		} else {
+			args = cc.Args
+		}
+		if idx >= len(args) {
+			c.add("A", fnSpec, role, desc, report.Violated, "no such argument", c.posOf(call))
+			return
+		}
+		eval(args[idx], 0)
+		if bad != "" {
+			c.add("A", fnSpec, role, desc, report.Violated, bad+": "+short(f.Term(args[idx]).String()), c.posOf(call))
+			return
+		}
+	}
+	c.add("A", fnSpec, role, desc, report.OK, short(f.Term(calls[0].Common().Args[0]).String()), c.posOf(calls[0]))
 }
